@@ -279,6 +279,14 @@ def search(ctx):
                   "cs_0:Compute:0:::70000.0.3", "vs_0:Vertex:0:::4.2.1", "cs_0:Compute:0:::8.4.1:fd", "float16_t:Compute:0:::8.4.1"]:
             out.append("\t".join(["C05.meta", tgt, "name=P0", "0", "g_t:Texture2D:-:-:0:0:e", "", e, "P0:-:0"]))
         out.append("\t".join(["C05.meta", tgt, "name=P0", "0", "g_t:Texture2D:-:-:0:0:e", "a:0::;a::0:", "a_0:Compute:0:0,1::8.4.1", "P0:-:0"]))
+    # what the typer builds: the layer chain of every distinct resource list above (target independent)
+    seen = []
+    for line in out:
+        res = line.split("\t")[4]
+        if res not in seen:
+            seen.append(res)
+    for res in seen:
+        out.append("\t".join(["C05.layers", "-", "-", "0", res, "", "", ""]))
     return out
 
 
